@@ -393,14 +393,14 @@ def bundleOk (b : Bundle) : Bool :=
 
 /-- the sort key of `responsebundles_from_list_of_dicts` (and of the request loader): bundles are read
     back in non-decreasing (expiration, inception, id) order; Python compares `str` by code points -/
-def bundleKeyLe (a b : Bundle) : Bool :=
+def loaderKeyLe (a b : Bundle) : Bool :=
   decide (a.expiration < b.expiration) ||
     (decide (a.expiration = b.expiration) &&
       (decide (a.inception < b.inception) || (decide (a.inception = b.inception) && !decide (b.id < a.id))))
 
 /-- the bundles are already in the order the loader establishes (the signer emits them in the order of
     the request's bundles, which the request loader sorted the same way) -/
-def bundlesSorted (bs : List Bundle) : Bool := (adjacent bs).all (fun p => bundleKeyLe p.1 p.2)
+def bundlesSorted (bs : List Bundle) : Bool := (adjacent bs).all (fun p => loaderKeyLe p.1 p.2)
 
 def writerDomain (r : Response) : Bool :=
   r.timestamp.isNone && attrTextOk r.id && attrTextOk r.domain && decide (0 ≤ r.serial)
